@@ -601,7 +601,7 @@ fn reader_spec(r: &mut Rng, benign_faults: bool) -> Value {
 /// stream), "big" (headers claiming huge sizes and counts)
 pub fn stream_family(r: &mut Rng, n: u64, x: &mut Exec, sink: &mut Sink, mode: &str) {
     for _ in 0..n {
-        let rich = !r.chance(1, 4);
+        let rich = mode != "faultall" && !r.chance(1, 4);
         let (sp, mut b) = random_elf(r, rich);
         let mut note = vec![];
         let corrupt_it = match mode { "big" => true, "plain" => r.chance(1, 3), _ => r.chance(1, 5) };
@@ -719,8 +719,12 @@ pub fn stream_family(r: &mut Rng, n: u64, x: &mut Exec, sink: &mut Sink, mode: &
         let kinds = ["error", "eof", "short", "interrupted"];
         let mut points: Vec<(u64, &str)> = Vec::new();
         if mode == "faultall" {
-            for k in 0..total { for kd in kinds.iter().take(2) { points.push((k, *kd)); } }
-            for _ in 0..(total / 2) { points.push((r.below(total.max(1)), *r.pick(&kinds[2..]))); }
+            // every I/O call index: both hard fault kinds (alternating when the script is long)
+            for k in 0..total {
+                if total <= 120 { for kd in kinds.iter().take(2) { points.push((k, *kd)); } }
+                else { points.push((k, kinds[(k % 2) as usize])); }
+            }
+            for _ in 0..(total / 4) { points.push((r.below(total.max(1)), *r.pick(&kinds[2..]))); }
         } else {
             for _ in 0..12 { points.push((r.below(total.max(1)), *r.pick(&["error", "error", "eof", "short", "interrupted"]))); }
             points.push((0, "error"));
